@@ -8,15 +8,20 @@
       [k |-> "open",  tag |-> T]     <name> of a registered style, or an inline style <fg=..;bg=..;options=..>
       [k |-> "close", tag |-> T]     </name>, </fg=..>           [k |-> "closeany"]   </>
       [k |-> "unk", lit |-> chars]   a tag of no registered style, e.g. <foo>, </foo>: literal text
-   A tag T is [named, name, fg, bg, at]  (colour names or "none"; at: attribute names in the order they are given;
-   named = TRUE: a style object registered under `name` or passed for the call, FALSE: an inline style).
+   A tag T is [named, name, sup, fg, bg, at]  (colour names or "none"; at: attribute names in the order they are given;
+   named = TRUE: a style object registered under `name` or passed for the call, FALSE: an inline style;
+   sup: how a registered style is supplied - "set" in the style set the formatter is constructed with, "added" by
+   add_style() after construction; "" otherwise).  For the P-layer a style is registered however it was supplied.
 
    P-layer: TextOf (the tag-stripped text), Sgr (the SGR codes of a style, as a set), PRender (every character of
             TextOf with the code set of the innermost open style) - recursive definitions over the segments.
    A-layer: the tag loop of pastel.Pastel.colorize as AnsiFormatter/PlainFormatter drive it: a style stack, text
             between tags emitted run by run ("ESC[codes m" run "ESC[0m" when the top style has codes), the run after
             the last tag split before its last character, codes in the order fg, bg, options-as-converted, unknown
-            tags as runs of their own, the final replacement of \< ; one action per segment.
+            tags as runs of their own, the final replacement of \< ; one action per segment.  The engine's registry
+            `reg` holds the style-set names after construction; one AddStyle action per style supplied later; a named
+            tag the engine does not know is literal text (token "<?>" - never produced while every way of supplying
+            a style reaches the engine that renders AND the one that strips).
             Repaired = TRUE: format(msg, style=S) hands the tag engine the message wrapped in the inline tag of S
             (proposed_fixes/C11-format-style-untagged.diff); FALSE: the pinned tree - S is pushed on the engine's style
             stack, which the engine ignores for a message without any tag (TLC: CodesRight violated by the message "1").
@@ -33,9 +38,11 @@ VARIABLES msg,      \* the message (segments)
           stack,    \* A: open styles, innermost last
           run,      \* A: text characters since the last tag
           ntags,    \* A: tags seen so far
+          reg,      \* A: names registered on the tag engine
+          pend,     \* A: styles still to be supplied through add_style()
           out,      \* tokens produced
           err, done
-vars == <<msg, base, amsg, col, j, stack, run, ntags, out, err, done>>
+vars == <<msg, base, amsg, col, j, stack, run, ntags, reg, pend, out, err, done>>
 
 BS == "\\"
 NoColour == "none"
@@ -51,7 +58,7 @@ Attrs == {"bold", "dark", "italic", "underline", "blink", "reverse", "conceal"}
 SetOf(seq) == {seq[k] : k \in DOMAIN seq}
 Sgr(s) == (IF s.fg = NoColour THEN {} ELSE {FgCode(s.fg)}) \cup (IF s.bg = NoColour THEN {} ELSE {BgCode(s.bg)})
           \cup {AttrCode(a) : a \in SetOf(s.at)}
-NoStyle == [named |-> FALSE, name |-> "", fg |-> NoColour, bg |-> NoColour, at |-> <<>>]
+NoStyle == [named |-> FALSE, name |-> "", sup |-> "", fg |-> NoColour, bg |-> NoColour, at |-> <<>>]
 
 \* ------------------------------------------------------------------ P-layer: text and rendering
 IsTag(g) == g.k \in {"open", "close", "closeany", "unk"}
@@ -131,49 +138,62 @@ Max(S) == CHOOSE x \in S : \A y \in S : y <= x
 
 \* AnsiFormatter.format(msg, style=S), repaired: "<fg=..;bg=..;options=..>" + msg + "</fg=..;bg=..;options=..>" (options in
 \* the converter's order); a style without any code gives no tag.  The plain formatter ignores S.
-InlineOf(s) == [named |-> FALSE, name |-> "", fg |-> s.fg, bg |-> s.bg, at |-> Options(s)]
+InlineOf(s) == [named |-> FALSE, name |-> "", sup |-> "", fg |-> s.fg, bg |-> s.bg, at |-> Options(s)]
+\* the registered styles a message uses, by the way they are supplied
+NamedTags(m) == {m[k].tag : k \in {i \in DOMAIN m : m[i].k \in {"open", "close"} /\ m[i].tag.named}}
+SetNames(m) == {t.name : t \in {x \in NamedTags(m) : x.sup # "added"}}
+LaterTags(m) == {x \in NamedTags(m) : x.sup = "added"}
 Given(m, b, c) == IF Repaired /\ c /\ b # <<>> /\ Codes(b[1]) # <<>>
                   THEN <<[k |-> "open", tag |-> InlineOf(b[1])]>> \o m \o <<[k |-> "close", tag |-> InlineOf(b[1])]>>
                   ELSE m
 Stack0(b, c) == IF Repaired \/ ~c THEN <<>> ELSE b
 Start(m, b, c) == /\ msg = m /\ base = b /\ amsg = Given(m, b, c) /\ col = c /\ j = 1 /\ stack = Stack0(b, c) /\ run = <<>>
-                  /\ ntags = 0 /\ out = <<>> /\ err = FALSE /\ done = FALSE
+                  /\ ntags = 0 /\ reg = SetNames(m) /\ pend = LaterTags(m) /\ out = <<>> /\ err = FALSE /\ done = FALSE
 
 \* the same as an action (the trace specification moves on to the next recorded call)
 Reset(m, b, c) == /\ msg' = m /\ base' = b /\ amsg' = Given(m, b, c) /\ col' = c /\ j' = 1 /\ stack' = Stack0(b, c)
-                  /\ run' = <<>> /\ ntags' = 0 /\ out' = <<>> /\ err' = FALSE /\ done' = FALSE
+                  /\ run' = <<>> /\ ntags' = 0 /\ reg' = SetNames(m) /\ pend' = LaterTags(m)
+                  /\ out' = <<>> /\ err' = FALSE /\ done' = FALSE
 
-Running == ~done /\ ~err /\ j <= Len(amsg)
+\* formatter.add_style(S): registered on the engine (the one engine renders and, with colours off, strips)
+AddStyle == /\ ~done /\ pend # {}
+            /\ LET t == CHOOSE x \in pend : TRUE IN reg' = reg \cup {t.name} /\ pend' = pend \ {t}
+            /\ UNCHANGED <<msg, base, amsg, col, j, stack, run, ntags, out, err, done>>
+
+Known(g) == ~g.tag.named \/ g.tag.name \in reg
+Running == ~done /\ ~err /\ pend = {} /\ j <= Len(amsg)
 TextSeg == /\ Running /\ ~IsTag(amsg[j])
            /\ run' = run \o RawOf(amsg[j]) /\ j' = j + 1
-           /\ UNCHANGED <<msg, base, amsg, col, stack, ntags, out, err, done>>
+           /\ UNCHANGED <<msg, base, amsg, col, stack, ntags, reg, pend, out, err, done>>
 
 \* a tag: the text before it goes out under the style in force, then the tag acts
 TagSeg == /\ Running /\ IsTag(amsg[j])
           /\ LET g == amsg[j]
                  flushed == out \o Apply(run, stack)
-             IN CASE g.k = "open" -> stack' = Append(stack, g.tag) /\ out' = flushed /\ err' = FALSE
+             IN CASE g.k \in {"open", "close"} /\ ~Known(g) ->
+                       stack' = stack /\ out' = flushed \o Apply(<<"<?>">>, stack) /\ err' = FALSE
+                  [] g.k = "open" /\ Known(g) -> stack' = Append(stack, g.tag) /\ out' = flushed /\ err' = FALSE
                   [] g.k = "closeany" -> /\ stack' = IF stack = <<>> THEN stack ELSE SubSeq(stack, 1, Len(stack) - 1)
                                          /\ out' = flushed /\ err' = FALSE
-                  [] g.k = "close" -> IF stack = <<>> THEN stack' = stack /\ out' = flushed /\ err' = FALSE
+                  [] g.k = "close" /\ Known(g) -> IF stack = <<>> THEN stack' = stack /\ out' = flushed /\ err' = FALSE
                                       ELSE IF MatchIdx(stack, g.tag) = {} THEN stack' = stack /\ out' = flushed /\ err' = TRUE
                                       ELSE /\ stack' = SubSeq(stack, 1, Max(MatchIdx(stack, g.tag)) - 1)
                                            /\ out' = flushed /\ err' = FALSE
                   [] g.k = "unk" -> stack' = stack /\ out' = flushed \o Apply(g.lit, stack) /\ err' = FALSE
           /\ run' = <<>> /\ ntags' = ntags + 1 /\ j' = j + 1
-          /\ UNCHANGED <<msg, base, amsg, col, done>>
+          /\ UNCHANGED <<msg, base, amsg, col, reg, pend, done>>
 
 \* end of the message: the last run (split before its last character when a tag preceded it), then the \< replacement
-Finish == /\ ~done /\ ~err /\ j > Len(amsg)
+Finish == /\ ~done /\ ~err /\ pend = {} /\ j > Len(amsg)
           /\ LET n == Len(run)
                  tail == IF ntags = 0 THEN Chars(run)      \* no tag at all: returned as it is, whatever the stack holds
                          ELSE IF n = 0 THEN <<>>
                          ELSE Apply(SubSeq(run, 1, n - 1), stack) \o Apply(SubSeq(run, n, n), stack)
              IN out' = Unescape(out \o tail)
           /\ done' = TRUE /\ run' = <<>>
-          /\ UNCHANGED <<msg, base, amsg, col, j, stack, ntags, err>>
+          /\ UNCHANGED <<msg, base, amsg, col, j, stack, ntags, reg, pend, err>>
 
-Step == TextSeg \/ TagSeg \/ Finish
+Step == AddStyle \/ TextSeg \/ TagSeg \/ Finish
 
 \* ------------------------------------------------------------------ the property (on finished renderings of balanced messages)
 Claimed == done /\ Balanced(msg)
@@ -182,5 +202,7 @@ PlainClean == (Claimed /\ ~col) => Plainly(out)                            \* an
 CodesRight == (Claimed /\ col) => Fold(out, {}) = PRender(msg, base)      \* every character under exactly its style's codes
 ResetAtEnd == (Claimed /\ col) => FinalCodes(out, {}) = {}                 \* nothing stays switched on
 NoError == Balanced(msg) => ~err
+\* however a style was supplied, the engine knows it when the message is rendered
+AllKnown == done => \A t \in NamedTags(msg) : t.name \in reg
 StackRestored == Claimed => stack = Stack0(base, col)
 =============================================================================
